@@ -1395,7 +1395,7 @@ def param_is_library_scratch(p, f: FuncInfo, param: str, modules, depth: int = 3
     return True
 
 
-def definition_is_read_only(ctx, rid: str, modules, what: str) -> None:
+def definition_is_read_only(ctx, rid: str, modules, what: str, only_funcs=None) -> None:
     """Data that belongs to the caller or to the machine definition is never mutated by the library at parse or run time:
     the raw config handed to create_machine(), an action's / guard's ``params`` object, an event dict, a persisted snapshot,
     the MachineLogic registries reached through ``self.machine``.  (A ``get`` turned into a ``pop`` works once: the second
@@ -1406,6 +1406,8 @@ def definition_is_read_only(ctx, rid: str, modules, what: str) -> None:
     c, p = ctx.c, ctx.p
     n = 0
     for f in p.funcs_in(*modules):
+        if only_funcs is not None and f.name not in only_funcs:
+            continue
         params = {a for a in f.params if a not in ("self", "cls")}
         if not params and "self.machine" not in norm(f.node):
             continue
@@ -1589,9 +1591,21 @@ def declared_entries_kept(ctx, rule: str, parser: str, what: str, consequence: s
     res = returned_name(f)
     loops = [l for l in own_nodes(f.node) if isinstance(l, ast.For) and not enclosing_loops(f, l) and
              any(isinstance(y, (ast.Name, ast.Attribute, ast.Call)) and ("raw_" in norm(y) or "config" in norm(y) or "_configs" in norm(y)) for y in ast.walk(l.iter))]
-    if not c.expect(rule, f"loop over the declared {what} in {f.short}", len(loops) if res else 0, 1, f,
+    # the comprehension form:  result = {k: build(k, v) for k, v in raw.items()}  keeps every entry exactly when it has no filter
+    comps = []
+    for a in own_nodes(f.node):
+        if isinstance(a, (ast.Assign, ast.AnnAssign)) and isinstance(getattr(a, "value", None), (ast.DictComp, ast.ListComp)):
+            t = a.targets[0] if isinstance(a, ast.Assign) else a.target
+            if isinstance(t, ast.Name) and t.id == res and any(
+                    isinstance(y, (ast.Name, ast.Attribute, ast.Call)) and ("raw_" in norm(y) or "config" in norm(y) or "_configs" in norm(y)) for y in ast.walk(a.value.generators[0].iter)):
+                comps.append(a)
+    if not c.expect(rule, f"loop over the declared {what} in {f.short}", (len(loops) + len(comps)) if res else 0, 1, f,
                     f"{f.short} no longer walks the declared {what} into the container it returns"):
         return
+    for a in comps:
+        filt = [i_ for g_ in a.value.generators for i_ in g_.ifs]
+        c.ob(rule, not filt, f, f"declared-{what}-kept", f"every declared entry of {what} is stored in the parsed result (unfiltered comprehension)" if not filt else
+             f"'{stmt_text(a)}' filters the declared {what} ({norm(filt[0])}): a declared entry is dropped at parse time - {consequence}", a)
     for l in loops:
         stores = [x for x in own_nodes(f.node) if l in enclosing_loops(f, x) and (
             (isinstance(x, ast.Assign) and isinstance(x.targets[0], ast.Subscript) and norm(x.targets[0].value) == res) or
